@@ -44,7 +44,7 @@ static void aead_items(void)
                           api_inc_reinit[alg](&st, N, K); api_inc_start[alg](&st, ADB, a); { int k1 = l > 3 ? 3 : l, k2 = l > 14 ? 14 : l; api_inc_dec[alg](&st, c, p, k1); api_inc_dec[alg](&st, c + k1, p + k1, k2 - k1); api_inc_dec[alg](&st, c + k2, p + k2, l - k2); }   /* cut at 3 and 14: chunks that start inside a word and run past it */
                           r = api_inc_decfin[alg](&st, c + l); api_inc_free[alg](&st); cl = l + 16; ml = l; break; }
                 case 2: { api_masked_key mk; api_masked_key_init(alg, &mk, K); api_masked_enc[alg](c, &cl, MSG, l, ADB, a, N, &mk); r = api_masked_dec[alg](p, &ml, c, cl, ADB, a, N, &mk); api_masked_key_free(alg, &mk); break; }
-                case 3: cl = (size_t)cpp_encrypt(0, alg, K, N, c, MSG, l, ADB, a); r = cpp_decrypt(0, alg, K, N, p, c, cl, ADB, a); ml = r >= 0 ? (size_t)r : 0; if (r > 0) r = 0; break;
+                case 3: cl = (size_t)(((a + l) & 1) ? cpp_encrypt_ctor(0, alg, K, N, c, MSG, l, ADB, a) : cpp_encrypt(0, alg, K, N, c, MSG, l, ADB, a)); r = ((a + l) & 1) ? cpp_decrypt(0, alg, K, N, p, c, cl, ADB, a) : cpp_decrypt_ctor(0, alg, K, N, p, c, cl, ADB, a); ml = r >= 0 ? (size_t)r : 0; if (r > 0) r = 0; break;   /* keyed alternately by set_key and by the key constructor */
                 }
                 snprintf(item, sizeof item, "aead:%s:%s", api_alg_name[alg], en[entry]);
                 if (cl != (size_t)l + 16) hx_fail(item, "ciphertext length %zu for (%d,%d)", cl, a, l); else expect(item, c, e, cl, "ciphertext", a, l);
